@@ -552,7 +552,14 @@ impl DeviceControl for ControlHandle {
         let required_trailer_size = unwrap_or_log!(sirm.required_trailer_size(self));
 
         let payload_transfer_size = unwrap_or_log!(align(PAYLOAD_TRANSFER_SIZE));
-        let payload_transfer_count = (required_payload_size / payload_transfer_size as u64) as u32;
+        let payload_transfer_count = unwrap_or_log!(u32::try_from(
+            required_payload_size / payload_transfer_size as u64
+        )
+        .map_err(|_| {
+            ControlError::InvalidDevice(
+                "required payload size is too large to be covered by payload transfers".into(),
+            )
+        }));
         // The remainder is smaller than the transfer size which is a multiple of the alignment, so
         // the aligned remainder doesn't exceed the transfer size.
         let payload_final_transfer1_size = ((required_payload_size % payload_transfer_size as u64
